@@ -29,3 +29,73 @@ package index
 //@   loop 0 decreases end - start + 1
 
 //@ pure func Between[T types.Numeric](lower T, upper T) Approximation[T]
+//@ pure func Exactly[T types.Numeric](v T) Approximation[T]
+
+//@ # ---------------------------------------------------------------- Distance over contiguous index domains (C01/C10)
+//@ # D(k) below is the k-th domain of the index the iterator walks (domain.SpecIterDomainAt).
+//@ # resolveForwardEffectiveDomainTR: the effective range starts at the current domain, ends at the
+//@ # end of a domain, every domain from the current one that ends before it has an immediately
+//@ # contiguous successor, and no domain straddles its end.
+//@ func resolveForwardEffectiveDomainTR(i *domain.Iterator) (b telem.TimeRange, n int64)
+//@   overflow off
+//@   requires i != nil && domain.SpecIterWF(i) && domain.SpecIterOK(i) && domain.SpecIterValid(i)
+//@   ensures  b.Start == old(i.TimeRange()).Start && b.End >= old(i.TimeRange()).End
+//@   ensures  forall k int :: 0 <= k && k < domain.SpecIterLen(i) && b.Start <= domain.SpecIterDomainAt(i, k).Start && domain.SpecIterDomainAt(i, k).End < b.End ==> k+1 < domain.SpecIterLen(i) && domain.SpecIterDomainAt(i, k+1).Start == domain.SpecIterDomainAt(i, k).End
+//@   ensures  forall k int :: 0 <= k && k < domain.SpecIterLen(i) && b.Start <= domain.SpecIterDomainAt(i, k).Start && domain.SpecIterDomainAt(i, k).Start < b.End ==> domain.SpecIterDomainAt(i, k).End <= b.End
+//@   ensures  domain.SpecIterOK(i) && domain.SpecIterIdx(i) == old(domain.SpecIterIdx(i)) && domain.SpecIterBounds(i) == old(domain.SpecIterBounds(i)) && domain.SpecIterClosed(i) == old(domain.SpecIterClosed(i))
+//@   modifies i
+//@   loop 0 modifies i
+//@   loop 0 invariant domain.SpecIterIdx(i) == old(domain.SpecIterIdx(i)) && domain.SpecIterBounds(i) == old(domain.SpecIterBounds(i)) && domain.SpecIterClosed(i) == old(domain.SpecIterClosed(i))
+//@   loop 0 invariant domain.SpecIterOK(i) && domain.SpecIterValid(i) && old(domain.SpecIterPos(i)) <= domain.SpecIterPos(i)
+//@   loop 0 invariant effectiveDomainBounds.Start == old(i.TimeRange()).Start && effectiveDomainBounds.End == i.TimeRange().End && effectiveDomainBounds.End >= old(i.TimeRange()).End
+//@   loop 0 invariant forall k int :: old(domain.SpecIterPos(i)) <= k && k < domain.SpecIterPos(i) ==> domain.SpecIterDomainAt(i, k+1).Start == domain.SpecIterDomainAt(i, k).End
+//@ # ---- what Distance computes (C01/C10) -----------------------------------------------------------
+//@ # SpecIdxStamp(db, k, j): the j-th timestamp stored in the k-th domain of the index channel's
+//@ # domain DB (ghost, uninterpreted: it is what a reader opened on that domain reads).
+//@ spec func SpecIdxStamp(db *domain.DB, k int, j int64) telem.TimeStamp
+//@ spec func SpecCnt(db *domain.DB, k int) int64 = int64(domain.SpecDBSizeAt(db, k)) / 8
+//@ # n is the number of stamps of domain k before ts (stamps are strictly increasing, so it is unique)
+//@ spec func SpecBefore(db *domain.DB, k int, n int64, ts telem.TimeStamp) bool = 0 <= n && n <= SpecCnt(db, k) && (forall j int64 :: 0 <= j && j < n ==> SpecIdxStamp(db, k, j) < ts) && (forall j int64 :: n <= j && j < SpecCnt(db, k) ==> SpecIdxStamp(db, k, j) >= ts)
+//@ # samples stored in domains a .. b-1
+//@ spec func SpecSum(db *domain.DB, a int, b int) int64 = domain.SpecDBSum(db, a, b, 8)
+//@ # the sample offset the callers pick from an approximation (unary.pickSampleOffset, calculateStart/EndOffset)
+//@ spec func SpecPick(a DistanceApproximation) int64 = __ite(a.Lower == a.Upper || a.StartExact, a.Upper, __ite(a.EndExact, a.Lower, (a.Lower + a.Upper) / 2))
+//@ # tr.Start lies in domain p with s of its stamps before it; tr.End lies in (D(q).Start, D(q).End] with e of q's stamps before it
+//@ spec func SpecDecomp(db *domain.DB, tr telem.TimeRange, p int, q int, s int64, e int64) bool = 0 <= p && p <= q && q < domain.SpecDBLen(db) && domain.SpecDBDomainAt(db, p).Start <= tr.Start && tr.Start < domain.SpecDBDomainAt(db, p).End && domain.SpecDBDomainAt(db, q).Start < tr.End && tr.End <= domain.SpecDBDomainAt(db, q).End && SpecBefore(db, p, s, tr.Start) && SpecBefore(db, q, e, tr.End)
+//@   pragma trigger
+//@ # n is the number of stored index stamps in [tr.Start, tr.End) (for a range inside contiguous domains)
+//@ spec func SpecCountIn(db *domain.DB, tr telem.TimeRange, n int64) bool = (tr.Start == tr.End && n == 0) || (tr.Start < tr.End && (exists p int, q int, s int64, e int64 :: SpecDecomp(db, tr, p, q, s, e) && n == SpecSum(db, p, q) - s + e))
+//@ # ... and the only such number: every decomposition of the range gives n
+//@ spec func SpecCountIs(db *domain.DB, tr telem.TimeRange, n int64) bool = SpecCountIn(db, tr, n) && (tr.Start < tr.End ==> (forall p int, q int, s int64, e int64 :: SpecDecomp(db, tr, p, q, s, e) ==> n == SpecSum(db, p, q) - s + e))
+//@ # Distance, continuous policy: (1) a lookup whose range lies inside the effective (contiguous)
+//@ # domain never reports a discontinuity from the multi-domain walk: some domain of the walk
+//@ # contains tr.End or ends exactly at it; (2) when tr.Start lies in domain p and tr.End in
+//@ # (D(q).Start, D(q).End], the offset picked from the approximation is exactly the number of
+//@ # stored index stamps in [tr.Start, tr.End): those of domains p..q-1, minus the s stamps of p
+//@ # before tr.Start, plus the e stamps of q before tr.End.
+//@ func (i *Domain) Distance(ctx context.Context, tr telem.TimeRange, continuous ContinuousPolicy) (approx DistanceApproximation, alignment telem.Alignment, err error)
+//@   overflow off
+//@   pragma abstract NewAlignment
+//@   # uint32(endApprox.Lower/Upper) and uint32(sampleCount(..)) build alignments: modelled as wrapping, not checked here
+//@   pragma wraps alignment sample indices are truncated to 32 bits by design of telem.Alignment
+//@   # the index channel has fewer than 2^31 domains (Position() already stores the domain index in 32 bits)
+//@   requires i.DB != nil && 0 <= tr.Start && tr.Start <= tr.End && domain.SpecDBLen(i.DB) <= 2147483648
+//@   ensures  err == nil ==> -4611686018427387904 <= approx.Lower && approx.Lower <= approx.Upper && approx.Upper <= 4611686018427387903
+//@   ensures  err == nil && continuous && tr.Start < tr.End ==> (forall p int, q int, s int64, e int64 :: SpecDecomp(i.DB, tr, p, q, s, e) ==> SpecPick(approx) == SpecSum(i.DB, p, q) - s + e)
+//@   ensures  err == nil && continuous && tr.Start < tr.End ==> (exists p int, q int, s int64, e int64 :: SpecDecomp(i.DB, tr, p, q, s, e))
+//@   # in short, for callers: the picked offset is the number of index stamps in the range
+//@   ensures  err == nil && continuous ==> SpecCountIs(i.DB, tr, SpecPick(approx))
+//@   hint_after "alignment = telem.NewAlignment(iter.Position(), uint32(endApprox.Upper))" err == nil && continuous ==> SpecDecomp(i.DB, tr, p0, p0, startApprox.Upper, endApprox.Upper)
+//@   hint_after "alignment = telem.NewAlignment(iter.Position(), uint32(endApprox.Lower))" continuous ==> SpecDecomp(i.DB, tr, p0, domain.SpecIterPos(iter), startApprox.Upper, endApprox.Upper)
+//@   # stored index timestamps are strictly increasing inside a domain (index writers reject
+//@   # out-of-order stamps, C10 writer side), and SpecIdxStamp names what the reader reads:
+//@   # assumed of every reader the iterator opens
+//@   assume_after "r, err := iter.OpenReader(ctx)" err == nil ==> SpecCount(r) <= 1152921504606846975 && (forall x int64 :: SpecStampAt(r, x) == SpecIdxStamp(i.DB, domain.SpecIterPos(iter), x)) && (forall x int64, y int64 :: 0 <= x && x < y && y < SpecCount(r) ==> SpecStampAt(r, x) < SpecStampAt(r, y))
+//@   assume_after "r, err = iter.OpenReader(ctx)" err == nil ==> SpecCount(r) <= 1152921504606846975 && (forall x int64 :: SpecStampAt(r, x) == SpecIdxStamp(i.DB, domain.SpecIterPos(iter), x)) && (forall x int64, y int64 :: 0 <= x && x < y && y < SpecCount(r) ==> SpecStampAt(r, x) < SpecStampAt(r, y))
+//@   assert_before "err = NewDiscontinuousTRError(tr)#3" false
+//@   let_after "r, err := iter.OpenReader(ctx)" p0 int = domain.SpecIterPos(iter)
+//@   loop 0 modifies iter
+//@   loop 0 invariant domain.SpecIterOK(iter) && domain.SpecIterValid(iter) && domain.SpecIterWF(iter) && domain.SpecIterBounds(iter) == tr && domain.SpecIterIdx(iter) == domain.SpecDBIdx(i.DB)
+//@   loop 0 invariant continuous ==> effectiveDomainTR.Start <= iter.TimeRange().Start && iter.TimeRange().End < tr.End
+//@   loop 0 invariant p0 <= domain.SpecIterPos(iter) && domainLen + totalTraversed == SpecSum(i.DB, p0, domain.SpecIterPos(iter) + 1)
+//@   loop 0 invariant 0 <= p0 && 0 <= totalTraversed && totalTraversed <= int64(domain.SpecIterPos(iter) - p0) * 536870912
